@@ -107,8 +107,28 @@ def main(argv=None):
             if part.custom is not None:
                 st = part.custom(args.tier)
             else:
-                st = explore_parallel(part.harness, part.bound[args.tier], split_depth=part.split_depth,
-                                      budget_s=part.budget[args.tier])
+                bound = part.bound[args.tier]
+                budget = part.budget[args.tier]
+                below = None
+                if bound >= 2 and args.tier == "thorough":
+                    # iterate the deviation bound: everything with fewer deviations is explored completely first, so that a time cap
+                    # on the deepest level still leaves a level that is covered exhaustively (reported as bound_completed)
+                    below = explore_parallel(part.harness, bound - 1, split_depth=part.split_depth, budget_s=budget)
+                    budget = max(60, budget - (time.time() - tp))
+                if below is not None and not below.capped and below.max_cost < bound - 1:
+                    st = below          # no execution has that many deviation points: the deeper level is the same tree
+                    below = None
+                else:
+                    st = explore_parallel(part.harness, bound, split_depth=part.split_depth, budget_s=budget)
+                st.extra = dict(getattr(st, "extra", None) or {})
+                st.extra["bound_completed"] = bound if not st.capped else ((bound - 1) if below is not None and not below.capped else None)
+                if below is not None:
+                    st.extra["executions_at_bound_below"] = below.executions
+                    if st.capped:
+                        # keep what the complete lower level found
+                        seen = {v["fingerprint"] for v in st.violations}
+                        st.violations += [v for v in below.violations if v["fingerprint"] not in seen]
+                        st.viol_count += sum(1 for v in below.violations if v["fingerprint"] not in seen)
         except Divergence as e:
             machinery.append(f"{part.name}: divergence: {e}")
             continue
